@@ -206,6 +206,62 @@ func runRuntime(cfg *Cfg) {
 			skipCase(bs, 0)
 		}
 	}
+	// every varint of a record (tag, value of wire type 0, length of wire type 2) padded to every length up to the ten
+	// bytes a varint may have, the last byte 0x00 (and, for ten bytes, also the other legal last byte 0x01): protowire
+	// accepts all of them, so Skip must return the record's length; at the top level and inside a group
+	pad := func(v []byte, total int, last byte) []byte {
+		v = append([]byte{}, v...)
+		for len(v) < total {
+			v[len(v)-1] |= 0x80
+			v = append(v, 0x00)
+		}
+		if last != 0 && len(v) == 10 {
+			v[9] = last
+		}
+		return v
+	}
+	for _, where := range []int{0, 1, 2} { // which varint is padded
+		for total := 1; total <= 10; total++ {
+			for _, last := range []byte{0, 1} {
+				for _, inGroup := range []bool{false, true} {
+					tag := protowire.AppendTag(nil, 1, protowire.VarintType)
+					val := protowire.AppendVarint(nil, 5)
+					var payload []byte
+					if where == 2 {
+						tag = protowire.AppendTag(nil, 1, protowire.BytesType)
+						val = protowire.AppendVarint(nil, 3)
+						payload = []byte{1, 2, 3}
+					}
+					if last == 1 && total == 10 {
+						// a tenth byte of 0x01 sets bit 63 of the value: fine for a value, not for a tag or a length
+						if where != 1 {
+							continue
+						}
+					}
+					switch where {
+					case 0:
+						if total > 5+5 || len(tag) > total {
+							continue
+						}
+						tag = pad(tag, total, 0)
+					default:
+						if len(val) > total {
+							continue
+						}
+						val = pad(val, total, last)
+					}
+					bs := append(append(append([]byte{}, tag...), val...), payload...)
+					if inGroup {
+						bs = append(protowire.AppendTag(nil, 9, protowire.StartGroupType), bs...)
+						bs = protowire.AppendTag(bs, 9, protowire.EndGroupType)
+					}
+					bs = append(bs, 0x08, 0x01)
+					out.Count("skip_padded_varint_cases")
+					skipCase(bs, 0)
+				}
+			}
+		}
+	}
 	// nesting depth of groups around protowire's limit (it accepts 10001 levels and refuses 10002): a record that
 	// protowire accepts must be skipped with exactly its length, whatever its depth; same / alternating / distinct
 	// field numbers per level, an inner record at the bottom, two bytes of the next record behind it
